@@ -20,7 +20,9 @@ func msgCatalogue() []*eng.Case {
 		out = append(out, &eng.Case{Mode: mode, Schema: n, Dest: dest, Input: in})
 	}
 	tst := func(name string) eng.TestSpec { id++; return eng.TestSpec{ID: id, Name: name} }
-	prim := func(pk string, t eng.TestSpec) *eng.Node { return &eng.Node{Kind: "prim", PK: pk, Tests: []eng.TestSpec{t}} }
+	prim := func(pk string, t eng.TestSpec) *eng.Node {
+		return &eng.Node{Kind: "prim", PK: pk, Tests: []eng.TestSpec{t}}
+	}
 	str := func(s string) eng.D { return eng.D{K: "s", S: s} }
 	// string tests (failing subject "x" for positive, a matching subject for negated)
 	type st struct {
